@@ -813,6 +813,10 @@ def check_reductions(prog, rep):
         if pl not in ("%s.shape[0]" % hm, "len(%s)" % hm, "pgmat.ploidy"):
             if pl is not None and pl.startswith(hm + ".shape["):
                 rep.violate(R, construct, "ploidy is taken from %s: axis 0 of the block array holds the phases" % pl, where(f, c), "%s.shape[0]" % hm, pl)
+            elif pl is not None and pl in f.params() and pl != "ploidy":
+                # another count of the factory (number of parents, crosses, blocks ...) stands in for the number of phases
+                rep.violate(R, construct, "the ploidy scale of the optimal haploid value is the factory argument `%s`, not the number of phases of the block array (%s.shape[0]): "
+                            "the value is that of the best doubled haploid only when the two happen to coincide" % (pl, hm), where(f, c), "%s.shape[0]" % hm, pl)
             else:
                 rep.unrec(R, construct, "ploidy argument %s" % pl)
             good = False
